@@ -23,7 +23,7 @@ ASSUME = ['importlib / sys.modules are modelled as a deterministic environment (
           'four module tables and the component-id table + flag are the only cross-decode state in the model -- state that a change might ADD is '
           'caught only by the history runs, not by the theorems',
           'the update rules of that state ARE in the model (udLookup, srcLookup, calloutLookup, osrcLookup, compIdLookup) and are compared with '
-          'the real dictionaries after every step; the model's configuration directory holds the files that can be read; a damaged file is skipped by the (repaired, D13) loader and '
+          'the real dictionaries after every step; the configuration directory of the model holds the files that can be read; a damaged file is skipped by the (repaired, D13) loader and '
           'is exercised by a direct oracle (check_damaged_conf: the same PEL decoded three times in one process)',
           'the fresh-interpreter oracle is sampled (one subprocess per sampled step)']
 RULE = ('cases = histories of 2..30 decodes in ONE process mixing well-formed, damaged, filtered PELs, all creators / components, fixture parser '
